@@ -205,6 +205,19 @@ Definition add_assoc (name : str) (c : ccset) : ccset :=
   with_assoc c (if has_str name (cc_assoc c) then cc_assoc c else name :: cc_assoc c).
 Definition del_assoc (name : str) (c : ccset) : ccset := with_assoc c (remove_str name (cc_assoc c)).
 
+(* canOccupyAll: every CIDR meets the range the entry has for its family (repair of D8); an
+   unparseable CIDR is left to the loop below to report *)
+Fixpoint can_occupy_all (c : ccset) (cs : list pcidr) : bool :=
+  match cs with
+  | [] => true
+  | PBad :: _ => true
+  | PGood x _ :: cs' =>
+      match pool_of c (cf x) with
+      | None => false
+      | Some p => overlapb (grange (pg p)) x && can_occupy_all c cs'
+      end
+  end.
+
 Fixpoint occupy_try (m : cidrmap) (node : nodeobj) (ps : list path) : cidrmap * res unit :=
   match ps with
   | [] => (m, Err EOccupy)
@@ -212,10 +225,11 @@ Fixpoint occupy_try (m : cidrmap) (node : nodeobj) (ps : list path) : cidrmap * 
       match get_entry m p with
       | None => (m, Panic)
       | Some c =>
+          if negb (can_occupy_all c (n_cidrs node)) then occupy_try m node ps' else
           match occupy_list c (n_cidrs node) with
           | (c', OParse) => (set_entry m p c', Err EParse)
           | (c', OAll) => (set_entry m p (add_assoc (n_name node) c'), Ok tt)
-          | (c', OBreak) => occupy_try (set_entry m p c') node ps'   (* a partial occupation stays: finding D8 *)
+          | (c', OBreak) => occupy_try (set_entry m p c') node ps'   (* unreachable after can_occupy_all for pools of the domain *)
           end
       end
   end.
@@ -224,7 +238,8 @@ Definition occupy_cidrs (po : parse_oracle) (lab : label_oracle) (m : cidrmap) (
   match n_cidrs node with
   | [] => (m, Ok tt)
   | _ =>
-      match ordered_matching po lab m (n_labels node) true with
+      (* terminating entries are considered too: the node does use these CIDRs (repair of D19) *)
+      match ordered_matching po lab m (n_labels node) false with
       | Err e => (m, Err e)
       | Panic => (m, Panic)
       | Ok [] => (m, Err ENoMatch)
@@ -401,7 +416,12 @@ Definition update_cidrs_allocation (canp : list cidr -> bool) (m : cidrmap) (nam
 Definition allocate_or_occupy (po : parse_oracle) (lab : label_oracle) (canp : list cidr -> bool) (m : cidrmap) (node : nodeobj)
            (reread : option nodeobj) (outs : list patch_outcome) : cidrmap * res unit * list effect :=
   match n_cidrs node with
-  | _ :: _ => let '(m', r) := occupy_cidrs po lab m node in (m', r, [])
+  | _ :: _ =>
+      (* the node vanished from the cache while the item waited for the lock: nothing to occupy (repair of D20) *)
+      match reread with
+      | None => (m, Ok tt, [])
+      | Some _ => let '(m', r) := occupy_cidrs po lab m node in (m', r, [])
+      end
   | [] =>
       match prioritized_cidrs po lab m node with
       | (m', Err e) => (m', Err e, [FxEvent 1 (n_name node)])
@@ -411,16 +431,9 @@ Definition allocate_or_occupy (po : parse_oracle) (lab : label_oracle) (canp : l
       end
   end.
 
-(* ---------- ReleaseCIDR (661-690) ---------- *)
-Fixpoint first_assoc (m : cidrmap) (name : str) (ps : list path) : option path :=
-  match ps with
-  | [] => None
-  | p :: ps' => match get_entry m p with
-                | Some c => if has_str name (cc_assoc c) then Some p else first_assoc m name ps'
-                | None => first_assoc m name ps'
-                end
-  end.
-
+(* ---------- ReleaseCIDR (661-690): the node's CIDRs are released from EVERY entry it is associated
+   with, whatever its labels are now (repair of D10/D11); entries are visited by selector key, then
+   position ---------- *)
 Fixpoint release_pcidrs (c : ccset) (cs : list pcidr) : ccset * res unit :=
   match cs with
   | [] => (c, Ok tt)
@@ -432,26 +445,35 @@ Fixpoint release_pcidrs (c : ccset) (cs : list pcidr) : ccset * res unit :=
                         end
   end.
 
-Definition release_cidr (po : parse_oracle) (lab : label_oracle) (m : cidrmap) (node : nodeobj) : cidrmap * res unit :=
+Definition assoc_paths (m : cidrmap) (name : str) : list path :=
+  flat_map (fun k => match find_key k m with
+                     | Some l => map (fun ic => (k, fst ic))
+                                     (filter (fun ic => has_str name (cc_assoc (snd ic))) (enum_from 0 l))
+                     | None => []
+                     end)
+           (sort_by str_ltb (map fst m)).
+
+Fixpoint release_all (m : cidrmap) (node : nodeobj) (ps : list path) : cidrmap * res unit :=
+  match ps with
+  | [] => (m, Ok tt)
+  | p :: ps' =>
+      match get_entry m p with
+      | None => (m, Panic)
+      | Some c =>
+          match release_pcidrs c (n_cidrs node) with
+          | (c', Ok _) => release_all (set_entry m p (del_assoc (n_name node) c')) node ps'
+          | (c', e) => (set_entry m p c', e)
+          end
+      end
+  end.
+
+Definition release_cidr (m : cidrmap) (node : nodeobj) : cidrmap * res unit :=
   match n_cidrs node with
   | [] => (m, Ok tt)
   | _ =>
-      match ordered_matching po lab m (n_labels node) false with
-      | Err e => (m, Err e)
-      | Panic => (m, Panic)
-      | Ok ps =>
-          match first_assoc m (n_name node) ps with
-          | None => (m, Err ENoAssoc)
-          | Some p =>
-              match get_entry m p with
-              | None => (m, Panic)
-              | Some c =>
-                  match release_pcidrs c (n_cidrs node) with
-                  | (c', Ok _) => (set_entry m p (del_assoc (n_name node) c'), Ok tt)
-                  | (c', e) => (set_entry m p c', e)
-                  end
-              end
-          end
+      match assoc_paths m (n_name node) with
+      | [] => (m, Err ENoAssoc)
+      | ps => release_all m node ps
       end
   end.
 
@@ -461,7 +483,7 @@ Definition sync_node (po : parse_oracle) (lab : label_oracle) (canp : list cidr 
   match cached with
   | None => (m, Ok tt, [])
   | Some node =>
-      if n_deleting node then let '(m', r) := release_cidr po lab m node in (m', r, [])
+      if n_deleting node then let '(m', r) := release_cidr m node in (m', r, [])
       else allocate_or_occupy po lab canp m node reread outs
   end.
 
@@ -571,21 +593,38 @@ Definition delete_cluster_cidr (m : cidrmap) (o : ccobj) : cidrmap * res unit :=
       end
   end.
 
-(* reconcileDelete (1220-1241) *)
+(* reconcileDelete (1220-1241): the entry is marked terminating and unmapped whether or not the
+   finalizer is on the object (repair of D18); the finalizer is removed when present *)
 Definition reconcile_delete (m : cidrmap) (o : ccobj) (out : upd_outcome) : cidrmap * res unit * list effect :=
-  if has_str finalizer (o_fins o) then
-    match delete_cluster_cidr m o with
-    | (m', Ok _) =>
+  match delete_cluster_cidr m o with
+  | (m', Ok _) =>
+      if has_str finalizer (o_fins o) then
         let o' := with_fins o (remove_str finalizer (o_fins o)) in
         (m', match out with UOk => Ok tt | _ => Err EUpdate end, [FxUpdateCC o' out])
-    | (m', e) => (m', e, [])
-    end
-  else (m, Ok tt, []).
+      else (m', Ok tt, [])
+  | (m', e) => (m', e, [])
+  end.
+
+(* removeDeletedClusterCIDR: the object no longer exists (it was deleted before the finalizer could be
+   persisted: repair of D6b).  Per selector the first entry of that name is marked terminating and,
+   unless nodes are still associated with it, removed. *)
+Definition remove_deleted_in (name : str) (l : list ccset) : list ccset :=
+  match find_name name l 0 with
+  | None => l
+  | Some (i, c) =>
+      match cc_assoc c with
+      | _ :: _ => set_nth i (with_term c true) l
+      | [] => remove_nth i l
+      end
+  end.
+
+Definition remove_deleted (m : cidrmap) (name : str) : cidrmap :=
+  flat_map (fun kl => match remove_deleted_in name (snd kl) with [] => [] | l => [(fst kl, l)] end) m.
 
 (* syncClusterCIDR (498-520) *)
-Definition sync_cc (m : cidrmap) (cached : option ccobj) (out : upd_outcome) : cidrmap * res unit * list effect :=
+Definition sync_cc (m : cidrmap) (key : str) (cached : option ccobj) (out : upd_outcome) : cidrmap * res unit * list effect :=
   match cached with
-  | None => (m, Ok tt, [])
+  | None => (remove_deleted m key, Ok tt, [])
   | Some o => if o_deleting o then reconcile_delete m o out else reconcile_create m o out
   end.
 
